@@ -4,6 +4,7 @@
    UnicodeDecodeError.  as_returned: the msgctxt/msgid exchange of defect D15 (identity without context). *)
 From Coq Require Import List NArith Bool.
 From I18n Require Import Lib.Outcome Model.MoParser Spec.MoFormat Proofs.MoStrings Proofs.MoParser Proofs.MoCorollaries Proofs.MoRejects.
+From I18n Require Import Model.MoParserPy Generated.MoParserSrc Proofs.MoParserSrc.
 From Coq Require String.
 From I18n Require Model.Tags Model.Check Proofs.Check Proofs.CheckMo.
 Import ListNotations.
@@ -171,3 +172,29 @@ Example C09_ex_messages :
   (* major revision 2 *)
   mo_parse (fun _ => true) None (firstn 5 ex_file ++ 2 :: skipn 6 ex_file) = Err (MoSyntax (MMajor 2)).
 Proof. vm_compute. repeat split. Qed.
+
+(* ------------------------------------------------------------------ *)
+(* Source tie (notes/SRC4.md; see Props/C08.v): the translation of the working tree's Parser._read_ints / _parse_entry /
+   _parse equals the model, for all arguments *)
+Theorem C09_source_tie_read_ints : forall be f at_,
+  src_read_ints f (endian_str be) at_ 1 = of_out (fun x => [x]) (read_int be f at_) /\
+  src_read_ints f (endian_str be) at_ 2 = of_out (fun p => [fst p; snd p]) (read_int2 be f at_).
+Proof. exact src_read_ints_eq. Qed.
+Print Assumptions C09_source_tie_read_ints.
+
+Theorem C09_source_tie_parse_entry : forall asc dec be f i enc last mo so,
+  src_parse_entry asc dec re_search_m re_group_m f (endian_str be) enc last i mo so =
+  entry_result dec (parse_entry asc be f (i =? 0) enc last mo so).
+Proof. exact src_parse_entry_eq. Qed.
+Print Assumptions C09_source_tie_parse_entry.
+
+Theorem C09_source_tie_parse : forall asc dec enc0 f,
+  parse_view (src_parse asc dec re_search_m re_group_m f enc0 []) = load_embed (mo_load asc dec enc0 f).
+Proof. exact src_parse_eq. Qed.
+Print Assumptions C09_source_tie_parse.
+
+(* hence, about the translated code itself: for every byte string it ends normally, with moparser.SyntaxError or with
+   UnicodeDecodeError; the IndexError / TypeError / ValueError / struct.error / AssertionError branches of the translation are dead *)
+Theorem C09_source_tie_total : forall asc dec enc0 f, clean (src_parse asc dec re_search_m re_group_m f enc0 []).
+Proof. exact src_parse_clean. Qed.
+Print Assumptions C09_source_tie_total.
